@@ -221,17 +221,24 @@ func replayReceiver(b *behaviour, watchdog time.Duration, withTopic bool) (key, 
 	ropts := []announce.Option{announce.WithAllowPeer(allow), announce.WithFilterIPs(true)}
 	var ps *psenv.Env
 	var pmu sync.Mutex // guards what the watcher's allow callback reads
-	h2Allowed := false
-	plainBy := map[string]string{} // CID -> model peer of the "plain" pubsub step that announced it (the remote host itself)
+	remoteAllowed := map[peer.ID]bool{} // the remote hosts (H2, and H3 behind it) as publishers of their own: allowed or not as the step says
+	type plainPub struct {
+		name string
+		by   peer.ID
+	}
+	plainBy := map[string][]plainPub{} // CID -> model peer and host of the "plain" pubsub steps that announced it
+	isRemote := func(p peer.ID) bool { return ps != nil && (p == ps.H2.ID() || (ps.H3 != nil && p == ps.H3.ID())) }
 	show := func(a announce.Announce) string {
-		if ps != nil && a.PeerID == ps.H2.ID() {
-			// attributed to the remote host: right only for a message that host published for itself
+		if isRemote(a.PeerID) {
+			// attributed to a remote host: right only for a message that very host published for itself
 			pmu.Lock()
-			name, ok := plainBy[a.Cid.String()]
-			pmu.Unlock()
-			if !ok {
-				name = "?relay"
+			name := "?relay"
+			for _, pp0 := range plainBy[a.Cid.String()] {
+				if pp0.by == a.PeerID {
+					name = pp0.name
+				}
 			}
+			pmu.Unlock()
 			pp := map[peer.ID]string{a.PeerID: name}
 			return showMsg(a, cids, pp)
 		}
@@ -247,8 +254,8 @@ func replayReceiver(b *behaviour, watchdog time.Duration, withTopic bool) (key, 
 		allow = func(p peer.ID) bool {
 			pmu.Lock()
 			defer pmu.Unlock()
-			if p == ps.H2.ID() {
-				return h2Allowed // the remote host publishing for itself: allowed or not as the step says
+			if isRemote(p) {
+				return remoteAllowed[p] // a remote host publishing for itself: allowed or not as the step says
 			}
 			return inner(p)
 		}
@@ -365,10 +372,15 @@ func replayReceiver(b *behaviour, watchdog time.Duration, withTopic bool) (key, 
 			tp := ps.T2
 			pmu.Lock()
 			switch st.Op {
-			case "pubsub-plain": // sent by the publisher itself: the remote host is the source peer
-				h2Allowed = st.Peer == "ok"
+			case "pubsub-plain": // sent by the publisher itself: that host is the source peer -- every other time the host two hops
+				// away, whose messages arrive from the host in between
+				pub := ps.H2.ID()
+				if ps.H3 != nil && i%2 == 1 {
+					pub, tp = ps.H3.ID(), ps.T3
+				}
+				remoteAllowed = map[peer.ID]bool{pub: st.Peer == "ok"}
 				if st.Peer == "ok" { // a refused one delivers nothing
-					plainBy[c.String()] = st.Peer
+					plainBy[c.String()] = append(plainBy[c.String()], plainPub{st.Peer, pub})
 				}
 			case "pubsub-relayed": // re-published by the remote host on behalf of the original publisher
 				m.OrigPeer = ids.Peer("rcv-" + st.Peer).String()
